@@ -225,6 +225,7 @@ OutcomeChecks(kt, b, o, D, tab, pAcc, pRej, F) ==
            <<Chk("C04", "reencode_reproduces_input", c.enc = SubSeq(b, 1, D.consumed)),
              Chk("C04", "fields_match_parse", c.seq = D.seq /\ c.pairs = D.pairs /\ c.sig = D.sig),
              Chk("C04", "public_key_matches_parse", c.pk = <<D.pk>>),
+             Chk("C04", "node_id_matches_parse", c.nid = D.nid),
              Chk("C10", "nid_is_hash_of_pk", c.nid = D.nid),
              Chk("C10", "nid_from_public_key", c.nid_pk = <<c.nid>>),
              Chk("C01", "decoded_record_verifies", c.verify = <<TRUE>>),
@@ -303,6 +304,7 @@ TextChecks(e) ==
                     LET c == e.tab[o.core] IN
                     <<Chk("C12", "parsed_record_is_the_encoded_one", c.enc = P.bytes),
                       Chk("C04", "fields_match_parse", c.seq = D(q).seq /\ c.pairs = D(q).pairs /\ c.sig = D(q).sig),
+                      Chk("C04", "node_id_matches_parse", c.nid = D(q).nid),
                       Chk("C10", "nid_is_hash_of_pk", c.nid = D(q).nid),
                       Chk("C01", "decoded_record_verifies", c.verify = <<TRUE>>)>>)))
       ext == IF e.ext = <<>> THEN <<>>
